@@ -87,7 +87,13 @@ func (o Outcome) Class(want *Term) string {
 	case o.Err != "":
 		return "error(" + NormMsg(o.Err) + ")"
 	}
-	return DiffClass(want, o.Type)
+	if cls := DiffClass(want, o.Type); cls != "=" {
+		return cls
+	}
+	if lies := Lies(o.Type); len(lies) > 0 {
+		return "name(" + strings.Join(lies, "; ") + ")"
+	}
+	return "="
 }
 
 // String renders the outcome for messages.
